@@ -171,6 +171,7 @@ def make_registry():  # noqa: F811  (final definition)
     for c in CONTRACTS:
         reg.add_contract(c)
     reg.contracts[C_CPA.func] = C_CPA
+    _install_recon_models(reg)
     reg.inline.add(f"{PU}:SimpleBatcher.rng")
     import torch
 
@@ -344,10 +345,22 @@ def init_ensures(s):
     return out
 
 
+def init_modifies(ctx, s):
+    """Call-site view of the constructor: fresh duplicate-free train / validation index arrays (constrained by `ensures`),
+    the generator that was passed in is the one the batcher keeps (ghost: recorded for ordering obligations)."""
+    o = s.self
+    o.fields["train_indices"] = npm.fresh_index_array(ctx, "train")
+    o.fields["val_indices"] = npm.fresh_index_array(ctx, "val")
+    o.fields["batch_size"] = s.num if s.batch_size is None else s.batch_size
+    o.fields["shuffle"] = s.shuffle
+    o.fields["_rng"] = s.rng
+    ctx.ghost.setdefault("batcher_rngs", []).append(s.rng)
+
+
 C_INIT = Contract(
     f"{PU}:SimpleBatcher.__init__", setup=init_setup,
     requires=lambda s: [("num>=0", s.num >= 0)],
-    ensures=init_ensures,
+    ensures=init_ensures, modifies=init_modifies,
     inline=[f"{PU}:SimpleBatcher.rng"],
 )
 
@@ -513,6 +526,7 @@ def rr_ensures(s):
 
 
 C_RESETRECON = Contract(f"{PB}:PtychographyBase.reset_recon", setup=rr_setup, ensures=rr_ensures, snapshot=reset_snapshot,
+                        modifies=lambda ctx, s: (reset_modifies(ctx, s), s.self.fields.update(_iter_losses=[], _iter_val_losses=[])),
                         inline=[f"{PB}:PtychographyBase.obj_model", f"{PB}:PtychographyBase.probe_model", f"{PB}:PtychographyBase.dset"])
 C_CPA = Contract(f"{PB}:PtychographyBase.compute_propagator_arrays", setup=lambda ctx: NS(self=Obj(PBC, {})),
                  note="assumed frame: does not touch the RNG fields (not verified)")
@@ -555,7 +569,9 @@ def ee_setup(ctx):
             lt = kname
             break
     dset = Bag(targets=targets_all, detector_mask=mask, num_gpts=N, mean_diffraction_intensity=mi)
-    o = Obj(PBC, {"_dset": dset})
+    cfg_bs = ctx.fresh("configured_batch_size", "int")  # the configured batch size may exceed the actual batch (b <= configured)
+    ctx.assume(cfg_bs.t >= b.t)
+    o = Obj(PBC, {"_dset": dset, "_batch_size": cfg_bs})
     return NS(self=o, pred_intensities=pred, batch_indices=bi, loss_type=lt, b=b, N=N, mi=mi, mask=mask, targets_all=targets_all)
 
 
@@ -583,7 +599,91 @@ def ee_ensures(s):
 
 
 C_ERR = Contract(f"{PB}:PtychographyBase.error_estimate", setup=ee_setup, ensures=ee_ensures,
-                 inline=[f"{PB}:PtychographyBase.dset"])
+                 inline=[f"{PB}:PtychographyBase.dset", f"{PB}:PtychographyBase.batch_size"])
+
+
+# --------------------------------------------------------------------------------------------
+# Ptychography.reconstruct (prologue): the epoch batcher is built AFTER the reset, from the reconstruction's current generator
+# --------------------------------------------------------------------------------------------
+PTY = "quantem.diffractive_imaging.ptychography"
+PTC = resolve(f"{PTY}:Ptychography")
+PTO = "quantem.diffractive_imaging.ptychography_opt"
+# collaborators of the prologue that are outside this contract (ASSUMED FRAME: they do not touch the RNG fields nor build batchers)
+RECON_OPAQUE_ALL = [f"{PB}:PtychographyBase._check_preprocessed", f"{PB}:PtychographyBase.to",
+                    f"{PB}:PtychographyBase.constraints", f"{PB}:PtychographyBase.store_snapshots",
+                    f"{PB}:PtychographyBase.store_snapshot_every",
+                    f"{PTO}:PtychographyOpt.optimizer_params", f"{PTO}:PtychographyOpt.scheduler_params",
+                    f"{PTO}:PtychographyOpt.set_optimizers", f"{PTO}:PtychographyOpt.set_schedulers"]
+
+
+def rr2_ensures(s):
+    return reset_ensures(s)
+
+
+C_RESETRECON2 = Contract(f"{PTY}:Ptychography.reset_recon", setup=lambda ctx: _as_ptycho(rr_setup(ctx)), ensures=rr2_ensures,
+                         snapshot=reset_snapshot,
+                         inline=[f"{PB}:PtychographyBase.obj_model", f"{PB}:PtychographyBase.probe_model", f"{PB}:PtychographyBase.dset"],
+                         modifies=lambda ctx, s: reset_modifies(ctx, s),
+                         note="the override must still reset the generators (it calls the base method through super())")
+
+
+def _as_ptycho(s):
+    s.self = Obj(PTC, dict(s.self.fields))
+    return s
+
+
+
+class OpaqueWith(Opaque):
+    def __init__(self, name, **attrs):
+        super().__init__(name)
+        self.__dict__.update(attrs)
+
+
+def recon_setup(ctx):
+    s = reset_setup(ctx)                       # seeded or unseeded reconstruction object with an already USED generator
+    N = ctx.fresh("num_gpts", "int")
+    ctx.assume(N.t >= 1)
+    o = Obj(PTC, dict(s.self.fields))
+    o.fields.update(_obj_model=Opaque("obj_model"), _probe_model=Opaque("probe_model"),
+                    _dset=OpaqueWith("dset", num_gpts=N), _val_ratio=0.0, _val_mode="grid", _batch_size=N,
+                    _verbose=0, verbose=0)
+    s.self = o
+    s.reset = ctx.fresh("reset", "bool")
+    s.batch_size = opt_int(ctx, "batch_size", lo=1)
+    s.num_iters = 0                             # the prologue is what is under contract; epochs are covered by __iter__'s contract
+    s.N = N
+    return s
+
+
+def recon_ensures(s):
+    o = s.self
+    rngs = s.ctx.ghost.get("batcher_rngs", [])
+    cur = o.fields["_rng"]
+    out = [("exactly-one-epoch-batcher-is-built", len(rngs) == 1)]
+    if rngs:
+        g = rngs[0]
+        out.append(("batcher-draws-from-the-reconstruction's-CURRENT-generator", g is cur))
+        if s.old.seed is not None:
+            out.append(("after-reset-that-generator-is-freshly-seeded", implies(s.reset, AND(g.draws == 0, g.seed is not None and lift(g.seed) == lift(s.old.seed)))))
+    return out
+
+
+def _install_recon_models(reg):
+    import quantem.diffractive_imaging.ptychography as ptymod
+    from pyvc.lib import super_ as _super
+
+    _super.install(reg)
+
+    reg.noop_calls = set(reg.noop_calls) - {"tqdm"}
+    reg.models[ptymod.tqdm] = lambda interp, it=None, *a, **k: it   # progress bar = its iterable
+    reg.opaque_calls = set(getattr(reg, "opaque_calls", ())) | set(RECON_OPAQUE_ALL)
+
+
+C_RECON = Contract(f"{PTY}:Ptychography.reconstruct", setup=recon_setup, ensures=recon_ensures, snapshot=reset_snapshot,
+                   inline=[f"{PB}:PtychographyBase.obj_model", f"{PB}:PtychographyBase.probe_model", f"{PB}:PtychographyBase.dset",
+                           f"{PB}:PtychographyBase.batch_size", f"{PB}:PtychographyBase.val_ratio", f"{PB}:PtychographyBase.val_mode",
+                           f"{PB}:PtychographyBase.verbose", f"{RNGM}:RNGMixin.rng",
+                           "quantem.core.utils.validators:validate_gt", "quantem.core.utils.validators:validate_int"])
 
 
 # --------------------------------------------------------------------------------------------
@@ -880,6 +980,12 @@ def rt_seeded_history(inp):
         problems.append(f"seed={seed}: history after reset {again.tolist()} != first {first.tolist()}")
     if not np.array_equal(first, fresh):
         problems.append(f"seed={seed}: fresh same-seed run {fresh.tolist()} != first {first.tolist()}")
+    # history with a NON-reset call first (the usual first call, which consumes the generator), then a reset
+    c = _toy(seed)
+    c.reconstruct(num_iters=1, reset=False, optimizer_params=opt, batch_size=B, device="cpu")
+    after = run(c)
+    if not np.array_equal(first, after):
+        problems.append(f"seed={seed}: history after [non-reset run, reset] {after.tolist()} != fresh run {first.tolist()}")
     return dict(violated=bool(problems), observed="; ".join(problems) or "ok", expected="identical loss histories for the same seed / after reset")
 
 
@@ -890,7 +996,7 @@ def fam_seeded_history(tier="quick", seed=0):
 
 C_ERR.rt, C_ERR.rt_family = rt_loss_invariance, fam_loss_invariance
 
-CONTRACTS = [C_SUBDIVIDE, C_GENERATE, C_ITER, C_LEN, C_ITERVAL, C_VALLEN, C_INIT, C_RNGSET, C_MSET, C_RESET, C_RESETRECON, C_ERR]
+CONTRACTS = [C_SUBDIVIDE, C_GENERATE, C_ITER, C_LEN, C_ITERVAL, C_VALLEN, C_INIT, C_RNGSET, C_MSET, C_RESET, C_RESETRECON, C_RESETRECON2, C_ERR, C_RECON]
 
 # --------------------------------------------------------------------------------------------
 # property-level lemmas
